@@ -39,6 +39,7 @@ type Frame struct {
 	back    map[[2]*ssa.BasicBlock]bool
 	dry     int
 	curLoop *loopInfo
+	clauseIdents map[string]bool
 }
 
 type exitRec struct {
